@@ -114,9 +114,11 @@ type c26Runner struct {
 	callsMu sync.Mutex
 }
 
-func (r *c26Runner) open() {
+// open starts the next generation; false = the sink refused the existing file (run is over).
+func (r *c26Runner) open() bool {
 	r.genNo++
 	r.gen = openGeneration(r.path, serializerOf(r.cfg.ser), r.k, r.rs, r.fake)
+	return r.gen != nil
 }
 
 func (r *c26Runner) closeGen() { r.gen.close(r.rs) }
@@ -199,8 +201,8 @@ func (r *c26Runner) concurrent(stop func(nlog, fill, ngr int) bool) {
 func (r *c26Runner) sequential(stop func(nlog, fill, ngr int) bool) {
 	order := rand.New(rand.NewSource(r.seed*37 + int64(r.run)*19 + int64(r.genNo))).Perm(len(r.kinds))
 	for n := 0; !stop(r.rs.counts()); n++ {
-		if n > 20000 {
-			fatalf("sequential phase does not reach its target fill level")
+		if n > 3*auditlog.GroundingBlockSize {
+			return // target not reachable (the pipeline checks the fill levels that were reached)
 		}
 		r.call(r.gen, r.genNo, 0, 100000+n, r.kinds[order[n%len(order)]], false)
 	}
@@ -215,29 +217,43 @@ func c26Run(run int, cfg c26Config, kinds []callKind, reflected []string, k *key
 	hangKind := callKind{M: "PutObject"}
 	bs := auditlog.GroundingBlockSize
 
-	// generation 1: fresh file -> genesis; restart with nothing but the genesis entry (fill 0)
-	r.open()
-	r.closeGen()
-	// generation 2: one call is in flight when the process stops: its START is entry 1 of the block
-	r.open()
-	r.call(r.gen, r.genNo, cfg.threads, 0, hangKind, true)
-	r.closeGen()
-	// generation 3: restart at fill 1; concurrent load, then stop exactly one entry short of a full buffer
-	r.open()
-	r.concurrent(func(nlog, fill, ngr int) bool { return nlog >= bs*7/10 })
-	r.sequential(func(nlog, fill, ngr int) bool { return fill == bs-1 })
-	r.closeGen()
-	// generation 4: restart at fill 999; the next entry (START of a call that never completes) fills the
-	// buffer and triggers grounding 1; concurrent load; stop right after grounding 2 (empty buffer)
-	r.open()
-	r.call(r.gen, r.genNo, cfg.threads, 0, hangKind, true)
-	r.concurrent(func(nlog, fill, ngr int) bool { return nlog >= bs+bs*7/10 })
-	r.sequential(func(nlog, fill, ngr int) bool { return fill == 0 && ngr >= 2 })
-	r.closeGen()
-	// generation 5: restart on the grounding boundary; concurrent load across the remaining groundings
-	r.open()
-	r.concurrent(func(nlog, fill, ngr int) bool { return ngr >= cfg.minGroundings && nlog >= bs*cfg.minGroundings+bs/10 })
-	r.closeGen()
+	func() {
+		// generation 1: fresh file -> genesis; restart with nothing but the genesis entry (fill 0)
+		if !r.open() {
+			return
+		}
+		r.closeGen()
+		// generation 2: one call is in flight when the process stops: its START is entry 1 of the block
+		if !r.open() {
+			return
+		}
+		r.call(r.gen, r.genNo, cfg.threads, 0, hangKind, true)
+		r.closeGen()
+		// generation 3: restart at fill 1; concurrent load, then stop exactly one entry short of a full buffer
+		if !r.open() {
+			return
+		}
+		r.concurrent(func(nlog, fill, ngr int) bool { return nlog >= bs*7/10 })
+		r.sequential(func(nlog, fill, ngr int) bool { return fill == bs-1 })
+		r.closeGen()
+		// generation 4: restart at fill 999; the next entry (START of a call that never completes) fills the
+		// buffer and triggers grounding 1; concurrent load; stop right after grounding 2 (empty buffer)
+		if !r.open() {
+			return
+		}
+		r.call(r.gen, r.genNo, cfg.threads, 0, hangKind, true)
+		r.concurrent(func(nlog, fill, ngr int) bool { return nlog >= bs+bs*7/10 })
+		r.sequential(func(nlog, fill, ngr int) bool { return fill == 0 && ngr >= 2 })
+		r.closeGen()
+		// generation 5: restart on the grounding boundary; concurrent load across the remaining groundings
+		if !r.open() {
+			return
+		}
+		r.concurrent(func(nlog, fill, ngr int) bool {
+			return (ngr >= cfg.minGroundings && nlog >= bs*cfg.minGroundings+bs/10) || nlog >= bs*(cfg.minGroundings+2)
+		})
+		r.closeGen()
+	}()
 
 	for _, h := range r.hung {
 		close(h)
